@@ -420,4 +420,91 @@ def l184():
 R.add('L18.4', l184, [{}], replay=replay_l181, desc='writeFrame output; constructors',
       expect=['writeFrame emits header ++ data header ++ payload'])
 
+
+# ------------------------------------------------------------------ L18.6 frames the handler itself builds (send / close)
+def l186():
+    """server->client frames produced through the handler API: send(text) and close() write exactly one RFC 6455
+    frame each (fin, opcode, unmasked, length form chosen by the payload length, payload = utf-8 of the text)"""
+    from sx import text
+    ep = Endpoint()
+    req = FakeRequest()
+    buf = ws.WebSocketTemporaryRingBuffer(req)
+    handler = ws.WebSocketTemporaryHandler(('h', 1), {}, {}, buf, ep)
+    msg = text.opaque('msg')
+    payload = msg.encode('utf-8')
+    L = rope.sx_len(payload)
+    assume(L <= 200000)
+    handler.send(msg)
+    if bool(L <= 125):
+        hdr = bytes([0x81]) + rope.field(L, 1)
+    elif bool(L <= 65535):
+        hdr = bytes([0x81, 126]) + rope.field(L, 2)
+    else:
+        hdr = bytes([0x81, 127]) + rope.field(L, 8)
+    check(rope.rope_eq(req.written, hdr + payload), 'send(text) writes one unmasked final Text frame with the RFC length form and the utf-8 payload')
+    check(req.chunked == 0, 'frames are written raw (no chunked transfer encoding)')
+    n0 = rope.sx_len(req.written)
+    try:
+        handler.send(b'bytes are refused')
+        check(False, 'send() of a non-str raises TypeError')
+    except TypeError:
+        pass
+    check(rope.sx_len(req.written) == n0, 'a refused send writes nothing')
+    handler.close()
+    tail = req.written[n0:]
+    check(rope.rope_eq(tail, bytes([0x88, 4, 0, 200]) + b'OK'), 'close() writes one final Close frame: status (2 bytes) ++ reason')
+    check(handler.closed is True, 'the handler is marked closed')
+    n1 = rope.sx_len(req.written)
+    handler.close()
+    check(rope.sx_len(req.written) == n1, 'a second close() writes nothing')
+    # the remaining constructors
+    g = Frame.Text(msg)
+    check(And(g.payload_length == L, g.flags.fin == 1, g.flags.opcode == Op.Text), 'Text constructor: fin, opcode, utf-8 length')
+    st = symint('status', 0, 65535)
+    reason, rl = rope.blob('reason', 0, 100)
+    c = Frame.Close(st, reason)
+    check(And(c.payload_length == rl + 2, c.flags.fin == 1, c.flags.opcode == Op.Close), 'Close constructor: fin, opcode, length = 2 + reason')
+    check(rope.rope_eq(c.payload, rope.field(st, 2) + reason), 'Close payload = big-endian status ++ reason')
+
+
+def replay_l186(cfg, m):
+    c = real('mpgameserver.http_server')
+
+    class Req:
+        chunked = 1
+        written = b''
+
+        def write(self, data):
+            self.written += data
+
+    class Ep:
+        def callback(self, *a):
+            pass
+    req = Req()
+    h = c.WebSocketTemporaryHandler(('h', 1), {}, {}, c.WebSocketTemporaryRingBuffer(req), Ep())
+    n = max(0, min(int(m.get('msg_chars', 0)), 200000))
+    msg = 'a' * n
+    h.send(msg)
+    L = len(msg)
+    if L <= 125:
+        hdr = bytes([0x81, L])
+    elif L <= 65535:
+        hdr = bytes([0x81, 126]) + L.to_bytes(2, 'big')
+    else:
+        hdr = bytes([0x81, 127]) + L.to_bytes(8, 'big')
+    bad = req.written != hdr + msg.encode()
+    n0 = len(req.written)
+    h.close()
+    bad2 = req.written[n0:] != bytes([0x88, 4, 0, 200]) + b'OK'
+    h.close()
+    bad3 = len(req.written) != n0 + 6
+    return bad or bad2 or bad3, 'send(%d chars): frame ok=%s, close frame ok=%s, second close silent=%s' % (n, not bad, not bad2, not bad3)
+
+
+R.add('L18.6', l186, [{}], replay=replay_l186,
+      desc='frames built by the handler API: send(text) and close() each write exactly one RFC 6455 frame; Text/Close constructors',
+      expect=['send(text) writes one unmasked final Text frame with the RFC length form and the utf-8 payload',
+              'close() writes one final Close frame: status (2 bytes) ++ reason'],
+      bounds='text of symbolic length with utf-8 length <= 200000 (all three length forms); close status 0..65535, reason <= 100 bytes')
+
 get_harness = R.get_harness
